@@ -29,26 +29,26 @@ VARS = ["None", "Pipe", "Merge", "File", "RcFile"]
 STD = {"Input": 0, "Output": 1, "Error": 2}
 
 
-def run(ctx):
-    prog = ctx.prog
+def redirection_table(ctx, prog, R="R05.1", RH="R05.1h"):
+    """the 125-configuration table of setup_streams and the helpers' effect summaries, on the given build"""
     ss = prog.one("popen::Popen::setup_streams")
     red = {v["name"]: v["discr"] for v in prog.adts["popen::Redirection"]["variants"]}
     if sorted(red) != sorted(VARS):
-        ctx.ob("R05.1", "redirection-variants", False, "", "Redirection variants changed: %s (oracle knows %s)" % (sorted(red), VARS))
+        ctx.ob(R, "redirection-variants", False, "", "Redirection variants changed: %s (oracle knows %s)" % (sorted(red), VARS))
         return
     params = {"stdin": None, "stdout": None, "stderr": None}
     for i in range(1, ss.arg_count + 1):
         if ss.local_name(i) in params:
             params[ss.local_name(i)] = i
     if None in params.values():
-        ctx.missing("R05.1", "setup_streams parameters stdin/stdout/stderr", str(params))
+        ctx.missing(R, "setup_streams parameters stdin/stdout/stderr", str(params))
         return
     merge_locals = [i for i, l in enumerate(ss.locals) if "MergeKind" in l["ty"] and i > ss.arg_count and l.get("name")]
     helper = {"pipe": "popen::Popen::setup_streams::prepare_pipe", "file": "popen::Popen::setup_streams::prepare_file",
               "rc": "popen::Popen::setup_streams::prepare_rc_file", "reuse": "popen::Popen::setup_streams::reuse_stream"}
     for h in helper.values():
         if h not in prog.fns:
-            ctx.missing("R05.1", h)
+            ctx.missing(R, h)
             return
     T0 = M.Terms(ss)
     # the child-end locals are the ones returned, in order
@@ -62,10 +62,10 @@ def run(ctx):
                 if len(d) == 1:
                     ret_locals = [T0.origin_local(o) for o in d[0][2]["ops"]]
     if not ret_locals or len(ret_locals) != 3:
-        ctx.missing("R05.1", "Ok((child_stdin, child_stdout, child_stderr)) return", str(ret_locals))
+        ctx.missing(R, "Ok((child_stdin, child_stdout, child_stderr)) return", str(ret_locals))
         return
     child = dict(zip(("stdin", "stdout", "stderr"), ret_locals))
-    ctx.ob("R05.1", "return-order", len(set(ret_locals)) == 3, ss.loc(0), "returned child ends are three distinct locals %s" % [ss.local_name(l) for l in ret_locals])
+    ctx.ob(R, "return-order", len(set(ret_locals)) == 3, ss.loc(0), "returned child ends are three distinct locals %s" % [ss.local_name(l) for l in ret_locals])
 
     def slot_of_child(name):
         return ("slot", ("local", child[name], ss.local_name(child[name])), ())
@@ -137,8 +137,8 @@ def run(ctx):
                                     detail += "; merge is resolved before the other stream is prepared"
         if not ok:
             bad += 1
-        ctx.ob("R05.1", key, ok, ss.loc(0), detail)
-    ctx.floor("R05.1", "configurations enumerated", n, 125)
+        ctx.ob(R, key, ok, ss.loc(0), detail)
+    ctx.floor(R, "configurations enumerated", n, 125)
     ctx.exhaustive = True
 
     # ---- helper summaries -------------------------------------------------
@@ -164,7 +164,7 @@ def run(ctx):
             return None
         pc, cc = comp(par), comp(chl)
         want_p, want_c = (1, 0) if pw else (0, 1)
-        ctx.ob("R05.1h", "prepare_pipe[parent_writes=%d]" % pw, (pc, cc) == (want_p, want_c), pp.loc(0),
+        ctx.ob(RH, "prepare_pipe[parent_writes=%d]" % pw, (pc, cc) == (want_p, want_c), pp.loc(0),
                "parent slot <- pipe component %s, child slot <- component %s (want %s/%s: component 0 is the read end)" % (pc, cc, want_p, want_c))
         # the parent end is made close-on-exec before it is stored (C08 shares this)
         si_calls = [(bb, t) for bb, t in ex.calls(lambda f: M.callee_str(f) == "popen::os::set_inheritable")]
@@ -174,7 +174,7 @@ def run(ctx):
             a1 = const_of(T.operand(t["args"][1]))
             if a0[0] == "field" and a0[2] == str(want_p) and a1 == 0:
                 okc = True
-        ctx.ob("R05.1h", "prepare_pipe[parent_writes=%d].cloexec-parent-end" % pw, okc, pp.loc(0), "set_inheritable(&parent_end, false) on component %d" % want_p)
+        ctx.ob(RH, "prepare_pipe[parent_writes=%d].cloexec-parent-end" % pw, okc, pp.loc(0), "set_inheritable(&parent_end, false) on component %d" % want_p)
     for hname, wrap in (("file", True), ("rc", False)):
         hf = prog.fns[helper[hname]]
         ex, T, stores = effects(hf, {})
@@ -187,7 +187,7 @@ def run(ctx):
                 ok = x[0] == "call" and x[1] == "std::rc::Rc::<T>::new" and x[2][0] == ("param", 1, hf.local_name(1))
             else:
                 ok = x == ("param", 1, hf.local_name(1))
-        ctx.ob("R05.1h", "prepare_%s.stores-payload" % hname, ok and len(stores) == 1, hf.loc(0), "child slot <- %s (must be the very file passed in)" % (M.term_str(v) if v else None))
+        ctx.ob(RH, "prepare_%s.stores-payload" % hname, ok and len(stores) == 1, hf.loc(0), "child slot <- %s (must be the very file passed in)" % (M.term_str(v) if v else None))
     ru = prog.fns[helper["reuse"]]
     Tr = M.Terms(ru)
     # dest <- Rc::clone(src.unwrap()), src filled from get_standard_stream(src_id) only when it is None
@@ -199,7 +199,7 @@ def run(ctx):
         v = dest_store[0][1]
         okd = v[0] == "agg" and v[1][:3] == ("adt", "std::option::Option", "Some") and v[2][0][0] == "call" and "Rc" in v[2][0][1] and "clone" in v[2][0][1] \
             and M.strip(v[2][0]) == ("param", 2, ru.local_name(2))
-    ctx.ob("R05.1h", "reuse_stream.dest<-clone(src)", okd, ru.loc(0), "dest <- %s (must be Some(Rc::clone(src.unwrap())))" % (M.term_str(dest_store[0][1]) if dest_store else None))
+    ctx.ob(RH, "reuse_stream.dest<-clone(src)", okd, ru.loc(0), "dest <- %s (must be Some(Rc::clone(src.unwrap())))" % (M.term_str(dest_store[0][1]) if dest_store else None))
     oks = len(src_store) == 1
     if oks:
         v = src_store[0][1]
@@ -207,17 +207,25 @@ def run(ctx):
         oks = inner is not None and inner[0] == "call" and inner[1] == "popen::get_standard_stream" and inner[2] == (("param", 3, ru.local_name(3)),)
         isnone = bool_edges(ru, Tr, lambda t: t[0] == "call" and t[1] == "std::option::Option::<T>::is_none" and M.strip(t[2][0]) == ("param", 2, ru.local_name(2)), True)
         oks = oks and dominated_by_edges(ru, src_store[0][2], isnone)
-    ctx.ob("R05.1h", "reuse_stream.src-default", oks, ru.loc(0), "src is filled with get_standard_stream(src_id) only when it is None")
+    ctx.ob(RH, "reuse_stream.src-default", oks, ru.loc(0), "src is filled with get_standard_stream(src_id) only when it is None")
     gss = prog.one("popen::get_standard_stream::{closure#0}")
     Tg = M.Terms(gss)
-    mks = gss.calls_to(lambda f: M.callee_str(f) == "posix::make_standard_stream")
+    mks = gss.calls_to(lambda f: M.callee_str(f) in ("posix::make_standard_stream", "win32::make_standard_stream"))
     okg = len(mks) == 1
     if okg:
         a = Tg.operand(mks[0][1]["args"][0])
         up = [u for u in gss.body["upvars"] if u["name"] == "which"]
         okg = len(up) == 1 and a == Tg.place(up[0]["p"])
-    ctx.ob("R05.1h", "get_standard_stream.same-id", okg, gss.loc(0), "make_standard_stream is called with the requested id")
+    ctx.ob(RH, "get_standard_stream.same-id", okg, gss.loc(0), "make_standard_stream is called with the requested id")
+    return ss
 
+
+def run(ctx):
+    prog = ctx.prog
+    ss = redirection_table(ctx, prog)
+    if ss is None:
+        return
+    helper = None
     # ---- R05.2 pipe end identity ------------------------------------------
     pf = prog.one("posix::pipe")
     T = M.Terms(pf)
@@ -348,3 +356,5 @@ def run_thorough(ctx):
                 {"dup2": ["posix::dup2"], "chdir": ["posix::chdir"], "setuid": ["posix::setuid"], "setgid": ["posix::setgid"], "setpgid": ["posix::setpgid"], "_exit": ["posix::_exit"]})
     # descriptors are closed only by their RAII owner
     deep_census(ctx, "R05.4", ["close", "closefrom", "close_range"], {"close": ["<std::os::fd::OwnedFd as std::ops::Drop>::drop"]})
+    import winrules
+    winrules.c05_table(ctx)
